@@ -55,10 +55,16 @@ def process_signature(app, what, name, obj, options,
     if isinstance(parent, type) and callable(obj):
         obj = _util.safe_get(obj, object(), type(parent))
     try:
-        sig = specifiers.signature(obj).evaluated()
+        forged_sig = specifiers.signature(obj)
     except (TypeError, ValueError):
         # inspect.signature raises ValueError if obj is callable but it can't
         # determine a signature, eg. built-in objects
+        return sig, return_annotation
+    try:
+        sig = forged_sig.evaluated()
+    except Exception:
+        # a postponed annotation that cannot be evaluated, eg. a name
+        # imported under typing.TYPE_CHECKING only
         return sig, return_annotation
     ret_annot = sig.return_annotation
     if ret_annot != sig.empty:
